@@ -25,11 +25,11 @@ claims = {
          "unchanged() compares all heap arrays touched by the function on pre-existing objects; the 'option changes nothing else' two-run half is not claimed.",
          "contract-based deductive verification: conditional frame postconditions, VCs from go/ssa discharged by z3/cvc5", "DESIGN.md 4.C18"),
  "C09": ("proof",
-         "Partial claim: representation invariant of every ordered collection (order has no duplicates, every ordered key is present, as many keys as entries) preserved by Set/SetToTop with whole-view postconditions; key texts: HTTP interaction ids are injective (lemma, SMT strings); AddTag/AddServer keep the invariant. Known finding: JSON-RPC ids are not injective.",
+         "Partial claim: representation invariant of every ordered collection (order has no duplicates, every ordered key is present, as many keys as entries) preserved by Set/SetToTop with whole-view postconditions; key texts: HTTP interaction ids are injective (lemma, SMT strings); AddTag/AddServer keep the invariant; ToJson/ToJsonIndent return exactly the bytes encoding/json produced (no post-processing). Known finding: JSON-RPC ids are not injective.",
          "Assumed: fmt.Sprintf %s semantics for the two String() methods (trusted contracts); MarshalJSON emits one member per element of order (loop shape read, byte-level JSON is encoding/json's). UTF-8/JSON well-formedness and compact == indented are not claimed.",
          "contract-based deductive verification + SMT string lemmas", "DESIGN.md 4.C09"),
  "C11": ("proof",
-         "Partial claim: local rejection contracts, each of the shape 'condition on the pre-state implies an error and every heap location unchanged': duplicate tag / server / macro / user enum / user type, second JSIGHT / INFO / Title / Version / Description-of-info, macro without name or without body, PASTE of an undefined macro; every successful PASTE collects the ENUM rules of the pasted macro again (ghost call counter), so an enum declared twice through PASTE reaches the duplicate check.",
+         "Partial claim: local rejection contracts, each of the shape 'condition on the pre-state implies an error and every heap location unchanged': duplicate tag / server / macro / user enum / user type, second JSIGHT / INFO / Title / Version / Description-of-info, macro without name or without body, PASTE of an undefined macro; every successful PASTE collects the ENUM rules of the pasted macro again (ghost call counter), so an enum declared twice through PASTE reaches the duplicate check; the same HTTP method on the same path / the same JSON-RPC method twice (AddHTTPMethod, AddJsonRpcMethod), a second Body under one response (AddResponseBody, defect F18 repaired), a PASTE without Name inside a macro body (findPaste).",
          "The remaining adders of setters.go / build_catalog_directives.go (interactions, types, enums, paths) are not yet under contract; 'one injected fault always causes rejection' end-to-end is not claimed.",
          "contract-based deductive verification: conditional frame postconditions (unchanged())", "DESIGN.md 4.C11"),
  "C07": ("proof",
